@@ -1246,8 +1246,11 @@ def search(ctx, deep=False):
         ev3, v3 = 0, []
     ev6, v6, worst6 = api_rotated(ctx, ctx.scale(12, 120))
     ctx.log(f"rotated isotropic models: {ev6} points, worst |div|/tol = {worst6:.3g}")
-    return {"evaluations": ev1 + ev2 + ev3 + ev4 + ev5 + ev6,
-            "violations": (v1[:3] + v4[:3] + v5[:4] + v2[:3] + v3[:2])[:8] + v6,
+    import threadcfg
+    ev7, v7 = threadcfg.api_thread_sweep(ctx, ("incompr",), ctx.scale(10, 80))
+    ctx.log(f"thread configuration: {ev7} vector fields with gstools.config.NUM_THREADS in {threadcfg.THREADS} vs None, {len(v7)} differences")
+    return {"evaluations": ev1 + ev2 + ev3 + ev4 + ev5 + ev6 + ev7,
+            "violations": (v1[:3] + v4[:3] + v5[:4] + v2[:3] + v3[:2])[:8] + v6 + v7[:2],
             "summary": f"central-difference divergence (h=1e-5 len_scale) of real SRF(generator='VectorField') at {ev1} random points over "
                        f"all model classes, dims 2/3, seeds, mode numbers, mean velocities, read through the output paths {paths}: worst |div|/tolerance {worst1:.3g} "
                        f"(tolerance = 3x truncation + 3x rounding bound + 1e-9 x scale of the cancelling terms), smallest |k|^2 len_scale^2 seen {k2min:.3g}; "
@@ -1259,7 +1262,8 @@ def search(ctx, deep=False):
                        f"{ev2} fields in seed x space ensembles for E u = mean_u e1 and Var u_d = mean_u^2 var share_d "
                        f"(3/8,1/8 | 8/15,1/15,1/15), worst z-score {worst2:.2f} (threshold 6.5); "
                        f"{ev3} finite-difference points on the Lean translation of the current summator.pyx; "
-                       f"{ev6} points of isotropic models with rotation angles (worst |div|/tolerance {worst6:.3g})"}
+                       f"{ev6} points of isotropic models with rotation angles (worst |div|/tolerance {worst6:.3g}); "
+                       f"{ev7} vector fields re-evaluated under gstools.config.NUM_THREADS = 1, 2, 3, 5 against NUM_THREADS = None"}
 
 
 def replay(ctx, payload):
